@@ -14,11 +14,14 @@ pub struct S1Opts {
     pub frames_lo: u64,
     pub frames_hi: u64,
     pub long_run_pct: u64,
+    pub mp_choices: &'static [usize],
+    /// favour held inputs and bursts: long prediction streaks
+    pub bias_held: bool,
 }
 
 impl Default for S1Opts {
     fn default() -> Self {
-        S1Opts { min_peers: 2, max_peers: 4, allow_spectators: true, allow_lockstep: false, faults: true, desync: false, frames_lo: 50, frames_hi: 900, long_run_pct: 10 }
+        S1Opts { min_peers: 2, max_peers: 4, allow_spectators: true, allow_lockstep: false, faults: true, desync: false, frames_lo: 50, frames_hi: 900, long_run_pct: 10, mp_choices: &[1, 1, 2, 2, 3, 4, 6, 8, 8, 8, 10, 12], bias_held: false }
     }
 }
 
@@ -69,14 +72,14 @@ pub fn s1(property: &str, scenario: &str, seed: u64, o: &S1Opts) -> Plan {
             }
         }
     }
-    let mut mp = *c.pick(&[6], &[1usize, 1, 2, 2, 3, 4, 6, 8, 8, 8, 10, 12]);
+    let mut mp = *c.pick(&[6], o.mp_choices);
     if o.allow_lockstep && c.chance(&[7], 200_000) {
         mp = 0;
     }
     let delay = *c.pick(&[8], &[0usize, 0, 0, 1, 2, 2, 3, 4, 6]);
     let fps = *c.pick(&[9], &[30usize, 60, 60, 60, 120]);
     let period = 1_000_000 / fps as u64;
-    let input_mode = match c.range(&[10], 0, 9) {
+    let input_mode = match if o.bias_held { c.range(&[10], 3, 6) } else { c.range(&[10], 0, 9) } {
         0..=2 => InputMode::Unique,
         3..=5 => InputMode::Held(c.range(&[11], 2, 30) as u32),
         6 => InputMode::MostlyDefault(c.range(&[12], 3, 12) as u32),
@@ -249,15 +252,137 @@ pub fn s1(property: &str, scenario: &str, seed: u64, o: &S1Opts) -> Plan {
         injects: Vec::new(),
         perturb: Vec::new(),
         horizon_us: horizon,
+        mode: Mode::Net,
         random_faults_until_us: None,
         oracle: OracleCfg::default(),
     }
 }
 
+/// Starvation: one peer is paused, or cut off one way or both ways, for a long time while the
+/// timeouts are raised so that nobody is disconnected. The others sit at the prediction limit
+/// (or in a lockstep stall) for thousands of ticks.
+pub fn starve(mut plan: Plan, seed: u64) -> Plan {
+    let c = Ch::new(seed, "starve");
+    plan.cfg.timeout_ms = 120_000;
+    plan.cfg.notify_ms = 30_000;
+    let peers = plan.peers();
+    let v = peers[c.range(&[1], 0, peers.len() as u64 - 1) as usize];
+    let dur = if c.chance(&[2], 100_000) { ms(c.range(&[3], 10_000, 50_000)) } else { ms(c.range(&[4], 1000, 10_000)) };
+    let at = c.range(&[5], ms(300), plan.horizon_us.max(ms(400)));
+    match c.range(&[6], 0, 3) {
+        0 | 1 => plan.nodes[v].tick.pauses.push((at, at + dur)),
+        k => {
+            for &o in &peers {
+                if o != v {
+                    plan.windows.push(Window { from: v, to: o, start_us: at, end_us: at + dur, kinds: ALL_KINDS, action: WinAction::Drop });
+                    if k == 3 {
+                        plan.windows.push(Window { from: o, to: v, start_us: at, end_us: at + dur, kinds: ALL_KINDS, action: WinAction::Drop });
+                    }
+                }
+            }
+        }
+    }
+    plan.horizon_us = plan.horizon_us.max(at) + dur + ms(2000);
+    // a spectator whose host produces nothing for > 128 frame-times of outage is cut loose by
+    // design; keep spectators out of starvation runs
+    while matches!(plan.nodes.last().map(|n| &n.kind), Some(NodeKind::Spectator { .. })) {
+        let last = plan.nodes.len() - 1;
+        plan.nodes.pop();
+        plan.links.retain(|l| l.from != last && l.to != last);
+        plan.windows.retain(|w| w.from != last && w.to != last);
+    }
+    plan.scenario = format!("{}+starve", plan.scenario);
+    plan
+}
+
+pub fn synctest(property: &str, seed: u64, faulty: bool, invalid: bool) -> Plan {
+    let c = Ch::new(seed, "synctest");
+    let np = c.range(&[1], 1, 4) as usize;
+    let mp = c.range(&[2], 1, 12) as usize;
+    let mut cd = if mp > 1 { c.range(&[3], 0, mp as u64 - 1) as usize } else { 0 };
+    if faulty {
+        cd = cd.max(2);
+    }
+    let mp = if faulty { mp.max(cd + 1) } else { mp };
+    let frames = c.range(&[4], 30, 400) as u32;
+    let mut sparse = false;
+    if invalid {
+        match c.range(&[5], 0, 2) {
+            0 => cd = mp + c.range(&[6], 0, 5) as usize,
+            1 => sparse = true,
+            _ => {
+                cd = mp;
+            }
+        }
+    }
+    let perturb = if faulty { vec![Perturb { node: 0, frame: c.range(&[7], 1, (frames as u64).saturating_sub(cd as u64 + 8).max(1)) as i32, mode: PerturbMode::Nondet }] } else { Vec::new() };
+    Plan {
+        property: property.to_owned(),
+        scenario: if invalid { "synctest-invalid" } else if faulty { "synctest-nondeterministic" } else { "synctest-deterministic" }.to_owned(),
+        seed,
+        cfg: RunCfg {
+            num_players: np,
+            max_prediction: mp,
+            input_delay: c.range(&[8], 0, 6) as usize,
+            sparse,
+            desync_interval: 0,
+            fps: 60,
+            timeout_ms: 2000,
+            notify_ms: 500,
+            predict_default: c.chance(&[9], 300_000),
+            input_mode: match c.range(&[10], 0, 3) {
+                0 => InputMode::Unique,
+                1 => InputMode::Held(c.range(&[11], 2, 20) as u32),
+                2 => InputMode::MostlyDefault(5),
+                _ => InputMode::Constant,
+            },
+            hash_seed: mix(seed ^ 0x4a5),
+            hash_per_map: c.chance(&[12], 500_000),
+            rng_seed: mix(seed ^ 0x77),
+            clock_bump_us: 0,
+        },
+        nodes: Vec::new(),
+        links: Vec::new(),
+        windows: Vec::new(),
+        pkt_faults: Vec::new(),
+        api: Vec::new(),
+        injects: Vec::new(),
+        perturb,
+        horizon_us: 0,
+        mode: Mode::SyncTest { check_distance: cd, frames, expect_reject: invalid },
+        random_faults_until_us: None,
+        oracle: OracleCfg::default(),
+    }
+}
+
+const ALL_WINDOWS: &[usize] = &[0, 0, 1, 1, 2, 2, 3, 4, 5, 6, 7, 8, 8, 9, 10, 11, 12];
+
 /// Scenario dispatch: which plan does run `index` of a check execute?
 pub fn generate(property: &str, tier: &str, seed: u64, index: u64) -> Plan {
-    let _ = tier;
     match property {
+        "C02" => match index % 10 {
+            0 | 1 => synctest(property, seed, false, false),
+            2 | 3 => starve(s1(property, "s1-allwindows", seed, &S1Opts { allow_lockstep: true, mp_choices: ALL_WINDOWS, max_peers: 3, ..Default::default() }), seed),
+            4 => s1(property, "s1-lockstep", seed, &S1Opts { mp_choices: &[0], ..Default::default() }),
+            5 => s1(property, "s1-faultfree", seed, &S1Opts { faults: false, allow_lockstep: true, ..Default::default() }),
+            _ => s1(property, "s1", seed, &S1Opts { allow_lockstep: true, ..Default::default() }),
+        },
+        "C03" => match index % 4 {
+            0 => s1(property, "s1-faultfree", seed, &S1Opts { faults: false, ..Default::default() }),
+            1 => s1(property, "s1-held", seed, &S1Opts { bias_held: true, ..Default::default() }),
+            _ => s1(property, "s1", seed, &S1Opts::default()),
+        },
+        "C04" => match index % 4 {
+            0 => s1(property, "s1-allwindows", seed, &S1Opts { mp_choices: ALL_WINDOWS, ..Default::default() }),
+            1 => starve(s1(property, "s1-lockstep", seed, &S1Opts { mp_choices: &[0], max_peers: 3, ..Default::default() }), seed),
+            _ => starve(s1(property, "s1-allwindows", seed, &S1Opts { mp_choices: ALL_WINDOWS, max_peers: 3, ..Default::default() }), seed),
+        },
+        "C05" => c05(property, tier, seed, index),
+        "C13" => match index % 8 {
+            0 => synctest(property, seed, false, true),
+            1..=3 => synctest(property, seed, false, false),
+            _ => synctest(property, seed, true, false),
+        },
         "C01" => {
             // sub-batches: fault-free and fault-injecting configurations are kept separate
             match index % 8 {
@@ -267,5 +392,343 @@ pub fn generate(property: &str, tier: &str, seed: u64, index: u64) -> Plan {
             }
         }
         _ => s1(property, "s1", seed, &S1Opts::default()),
+    }
+}
+
+// ------------------------------------------------------------------ C05
+
+pub const C05_M: u64 = 60;
+const C05_KINDS: u64 = 3;
+
+/// The bases of the systematic part: topology x window x delay x sparse.
+pub fn c05_bases() -> Vec<(u8, usize, usize, bool)> {
+    let mut v = Vec::new();
+    for topo in 0..3u8 {
+        for mp in [0usize, 1, 2, 8] {
+            for delay in [0usize, 2] {
+                for sparse in [false, true] {
+                    v.push((topo, mp, delay, sparse));
+                }
+            }
+        }
+    }
+    v
+}
+
+fn c05_base_plan(property: &str, seed: u64, b: (u8, usize, usize, bool)) -> Plan {
+    let (topo, mp, delay, sparse) = b;
+    let period = 16_666;
+    let mk = |kind: NodeKind, start: u64| NodeSpec {
+        kind,
+        tick: TickSpec { start_us: start, period_us: period, ..Default::default() },
+        wall_offset_ms: 1_700_000_000_000 + start,
+        drain: true,
+    };
+    let (nodes, np) = match topo {
+        0 => (vec![mk(NodeKind::Peer { locals: vec![0] }, 0), mk(NodeKind::Peer { locals: vec![1] }, 3000)], 2),
+        1 => (
+            vec![
+                mk(NodeKind::Peer { locals: vec![0] }, 0),
+                mk(NodeKind::Peer { locals: vec![1] }, 3000),
+                mk(NodeKind::Spectator { host: 0, max_frames_behind: 5, catchup_speed: 4 }, 7000),
+            ],
+            2,
+        ),
+        _ => (vec![mk(NodeKind::Peer { locals: vec![0] }, 0), mk(NodeKind::Peer { locals: vec![1] }, 3000), mk(NodeKind::Peer { locals: vec![2] }, 6000)], 3),
+    };
+    let mut links = Vec::new();
+    for a in 0..nodes.len() {
+        for bb in 0..nodes.len() {
+            let ok = a != bb
+                && match (&nodes[a].kind, &nodes[bb].kind) {
+                    (NodeKind::Peer { .. }, NodeKind::Peer { .. }) => true,
+                    (NodeKind::Peer { .. }, NodeKind::Spectator { host, .. }) => *host == a,
+                    (NodeKind::Spectator { host, .. }, NodeKind::Peer { .. }) => *host == bb,
+                    _ => false,
+                };
+            if ok {
+                links.push(LinkSpec { from: a, to: bb, base_us: 20_000, jitter_us: 0, loss_ppm: 0, dup_ppm: 0 });
+            }
+        }
+    }
+    let heal = ms(2000);
+    let deadline = ms(4500);
+    Plan {
+        property: property.to_owned(),
+        scenario: format!("c05-systematic-topo{topo}"),
+        seed,
+        cfg: RunCfg {
+            num_players: np,
+            max_prediction: mp,
+            input_delay: delay,
+            sparse,
+            desync_interval: 0,
+            fps: 60,
+            timeout_ms: 2000,
+            notify_ms: 500,
+            predict_default: false,
+            input_mode: InputMode::Held(3),
+            hash_seed: 7,
+            hash_per_map: false,
+            rng_seed: 11,
+            clock_bump_us: 0,
+        },
+        nodes,
+        links,
+        windows: Vec::new(),
+        pkt_faults: Vec::new(),
+        api: Vec::new(),
+        injects: Vec::new(),
+        perturb: Vec::new(),
+        horizon_us: deadline,
+        mode: Mode::Net,
+        random_faults_until_us: Some(0),
+        oracle: OracleCfg { liveness: Some(Liveness { heal_us: heal, deadline_us: deadline, min_frames: 5 }), no_disconnect_events: true, ..Default::default() },
+    }
+}
+
+fn c05_fault(plan: &Plan, id: u64) -> PktFault {
+    let kind = id % C05_KINDS;
+    let n = (id / C05_KINDS) % C05_M;
+    let l = &plan.links[(id / (C05_KINDS * C05_M)) as usize];
+    PktFault {
+        from: l.from,
+        to: l.to,
+        n,
+        action: match kind {
+            0 => PktAction::Drop,
+            1 => PktAction::Dup(30_000),
+            _ => PktAction::Delay(250_000),
+        },
+    }
+}
+
+fn c05_slots(plan: &Plan) -> u64 {
+    plan.links.len() as u64 * C05_M * C05_KINDS
+}
+
+/// Number of single-fault runs over all bases.
+pub fn c05_singles() -> u64 {
+    c05_bases().iter().map(|b| c05_slots(&c05_base_plan("C05", 0, *b))).sum()
+}
+
+fn nth_pair(n: u64, mut k: u64) -> (u64, u64) {
+    let mut i = 0;
+    loop {
+        let row = n - 1 - i;
+        if k < row {
+            return (i, i + 1 + k);
+        }
+        k -= row;
+        i += 1;
+    }
+}
+
+/// All pairs of faults on the bases with two peers (topology 0) and on the host<->spectator
+/// links of topology 1.
+pub fn c05_pairs_total() -> u64 {
+    let mut t = 0;
+    for b in c05_bases() {
+        let slots = match b.0 {
+            0 => 2 * C05_M * C05_KINDS,
+            1 => 2 * C05_M * C05_KINDS,
+            _ => 0,
+        };
+        if slots > 0 {
+            t += slots * (slots - 1) / 2;
+        }
+    }
+    t
+}
+
+fn c05_single(property: &str, seed: u64, mut k: u64) -> Plan {
+    for b in c05_bases() {
+        let mut p = c05_base_plan(property, seed, b);
+        let s = c05_slots(&p);
+        if k < s {
+            let f = c05_fault(&p, k);
+            p.pkt_faults.push(f);
+            return p;
+        }
+        k -= s;
+    }
+    unreachable!()
+}
+
+/// For topology 1 the enumerated slots are the host->spectator and spectator->host links
+/// (the last two links of the plan); for topology 0 all links.
+fn c05_pair(property: &str, seed: u64, mut k: u64) -> Plan {
+    for b in c05_bases() {
+        if b.0 == 2 {
+            continue;
+        }
+        let slots = 2 * C05_M * C05_KINDS;
+        let pairs = slots * (slots - 1) / 2;
+        if k < pairs {
+            let mut p = c05_base_plan(property, seed, b);
+            let (i, j) = nth_pair(slots, k);
+            let off = if b.0 == 1 {
+                // links are ordered (0,1),(0,2),(1,0),(2,0): remap onto (0,2) and (2,0)
+                |x: u64| {
+                    let per = C05_M * C05_KINDS;
+                    if x < per {
+                        per + x
+                    } else {
+                        3 * per + (x - per)
+                    }
+                }
+            } else {
+                |x: u64| x
+            };
+            let (f1, f2) = (c05_fault(&p, off(i)), c05_fault(&p, off(j)));
+            p.scenario = format!("c05-pairs-topo{}", b.0);
+            p.pkt_faults.push(f1);
+            if !(p.pkt_faults[0].from == f2.from && p.pkt_faults[0].to == f2.to && p.pkt_faults[0].n == f2.n) {
+                p.pkt_faults.push(f2);
+            }
+            return p;
+        }
+        k -= pairs;
+    }
+    unreachable!()
+}
+
+fn c05_random_pair(property: &str, seed: u64) -> Plan {
+    let c = Ch::new(seed, "c05pair");
+    let bases = c05_bases();
+    let b = bases[c.range(&[1], 0, bases.len() as u64 - 1) as usize];
+    let mut p = c05_base_plan(property, seed, b);
+    let s = c05_slots(&p);
+    let k = c.range(&[2], 2, 3);
+    for j in 0..k {
+        let f = c05_fault(&p, c.range(&[3, j], 0, s - 1));
+        if !p.pkt_faults.iter().any(|x| x.from == f.from && x.to == f.to && x.n == f.n) {
+            p.pkt_faults.push(f);
+        }
+    }
+    p.scenario = "c05-sampled-pairs-triples".into();
+    p
+}
+
+/// Seeded search: burst outages in either or both directions shorter than the timeout,
+/// kind-targeted loss, small windows and non-zero delays over-represented, spectators common.
+fn c05_search(property: &str, seed: u64) -> Plan {
+    let c = Ch::new(seed, "c05search");
+    let mut p = s1(
+        property,
+        "c05-search",
+        seed,
+        &S1Opts { faults: false, allow_lockstep: true, max_peers: 3, mp_choices: &[0, 0, 1, 1, 2, 2, 3, 4, 8], frames_lo: 120, frames_hi: 400, long_run_pct: 0, ..Default::default() },
+    );
+    // more spectators than in S1
+    if !p.nodes.iter().any(|n| matches!(n.kind, NodeKind::Spectator { .. })) && c.chance(&[1], 500_000) {
+        let host = c.range(&[2], 0, p.peers().len() as u64 - 1) as usize;
+        let id = p.nodes.len();
+        let per = 1_000_000 / p.cfg.fps as u64;
+        p.nodes.push(NodeSpec {
+            kind: NodeKind::Spectator { host, max_frames_behind: *c.pick(&[3], &[2usize, 5, 10]), catchup_speed: *c.pick(&[4], &[2usize, 4, 8]) },
+            tick: TickSpec { start_us: 5000, period_us: per, ..Default::default() },
+            wall_offset_ms: 5_000_000,
+            drain: true,
+        });
+        let lat = ms(*c.pick(&[5], &[1u64, 10, 30, 60]));
+        p.links.push(LinkSpec { from: host, to: id, base_us: lat, jitter_us: lat / 3, loss_ppm: 0, dup_ppm: 0 });
+        p.links.push(LinkSpec { from: id, to: host, base_us: lat, jitter_us: lat / 3, loss_ppm: 0, dup_ppm: 0 });
+    }
+    // regular ticks: liveness is only demanded of sessions that are driven regularly
+    let per = 1_000_000 / p.cfg.fps as u64;
+    for n in p.nodes.iter_mut() {
+        n.tick.period_us = per;
+        n.tick.jitter_us = n.tick.jitter_us.min(per / 4);
+        n.tick.pauses.clear();
+        n.tick.use_wait = false;
+        if let NodeKind::Spectator { catchup_speed, .. } = &mut n.kind {
+            *catchup_speed = (*catchup_speed).max(2);
+        }
+    }
+    let max_lat = p.links.iter().map(|l| l.base_us + l.jitter_us).max().unwrap_or(0).min(ms(80));
+    for l in p.links.iter_mut() {
+        l.base_us = l.base_us.min(ms(60));
+        l.jitter_us = l.jitter_us.min(ms(20));
+        l.loss_ppm = *c.pick(&[6, l.from as u64, l.to as u64], &[0u32, 0, 20_000, 100_000]);
+        l.dup_ppm = *c.pick(&[7, l.from as u64, l.to as u64], &[0u32, 0, 50_000]);
+    }
+    p.cfg.timeout_ms = *c.pick(&[8], &[2000u64, 2000, 3000]);
+    p.cfg.notify_ms = 500;
+    // total outage budget: shorter than timeout - 600 ms - 2 * latency and than 100 frame-times
+    let mut budget = (ms(p.cfg.timeout_ms) - ms(600) - 2 * max_lat).min(100 * per);
+    let nw = c.range(&[9], 1, 3);
+    let mut last_end = 0;
+    let mut spent: Vec<((usize, usize), u64)> = Vec::new();
+    for j in 0..nw {
+        if budget < ms(20) {
+            break;
+        }
+        let l = p.links[c.range(&[11, j], 0, p.links.len() as u64 - 1) as usize].clone();
+        // on a spectator link lost packets or lost acks count against the host's 128-input cap
+        // together with one round trip (beyond that the host disconnects the spectator by design)
+        let both = c.chance(&[16, j], 350_000);
+        let touches_spec = matches!(p.nodes[l.to].kind, NodeKind::Spectator { .. }) || matches!(p.nodes[l.from].kind, NodeKind::Spectator { .. });
+        let to_spec = matches!(p.nodes[l.to].kind, NodeKind::Spectator { .. }) || (both && touches_spec);
+        let from_spec = touches_spec && !to_spec;
+        let cap_total = if to_spec || from_spec { (100 * per).saturating_sub(2 * max_lat + ms(50)) } else { u64::MAX };
+        // the cap is per pair of nodes and cumulative: several windows on one link add up
+        let pair = (l.from.min(l.to), l.from.max(l.to));
+        let used = spent.iter().filter(|(k, _)| *k == pair).map(|(_, v)| *v).sum::<u64>();
+        let hi = budget.min(cap_total.saturating_sub(used));
+        if hi < ms(20) {
+            continue;
+        }
+        let d = c.range(&[10, j], ms(20), hi);
+        budget -= d;
+        spent.push((pair, d));
+        let at = if c.chance(&[12, j], 250_000) { c.range(&[13, j], 0, ms(300)) } else { c.range(&[14, j], ms(300), ms(3000)) };
+        let kinds = match c.range(&[15, j], 0, 7) {
+            0 | 1 => 1u16 << K_INPUT_ACK,
+            2 => 1u16 << K_INPUT,
+            3 => (1u16 << K_INPUT_ACK) | (1u16 << K_INPUT),
+            4 => (1u16 << K_SYNC_REP) | (1u16 << K_SYNC_REQ),
+            _ => ALL_KINDS,
+        };
+        p.windows.push(Window { from: l.from, to: l.to, start_us: at, end_us: at + d, kinds, action: WinAction::Drop });
+        if both {
+            p.windows.push(Window { from: l.to, to: l.from, start_us: at, end_us: at + d, kinds, action: WinAction::Drop });
+        }
+        last_end = last_end.max(at + d);
+    }
+    // sequential windows must not chain into one silence longer than the budget: serialise them with gaps
+    p.windows.sort_by_key(|w| w.start_us);
+    let heal = last_end + 2 * max_lat + ms(300);
+    p.random_faults_until_us = Some(last_end);
+    p.horizon_us = heal + ms(3000);
+    p.oracle.liveness = Some(Liveness { heal_us: heal, deadline_us: heal + ms(3000), min_frames: 5 });
+    p.oracle.no_disconnect_events = true;
+    p
+}
+
+pub fn c05_runs(tier: &str) -> u64 {
+    if tier == "thorough" {
+        c05_singles() + c05_pairs_total() + 300_000
+    } else {
+        c05_singles() + 24_000
+    }
+}
+
+pub fn c05(property: &str, tier: &str, seed: u64, index: u64) -> Plan {
+    let singles = c05_singles();
+    if index < singles {
+        return c05_single(property, seed, index);
+    }
+    let k = index - singles;
+    if tier == "thorough" {
+        let pairs = c05_pairs_total();
+        if k < pairs {
+            return c05_pair(property, seed, k);
+        }
+    }
+    if k % 3 == 0 {
+        c05_random_pair(property, seed)
+    } else {
+        c05_search(property, seed)
     }
 }
